@@ -76,7 +76,9 @@ def replay_one(rec, pattern, variant):
                 "offset": R.submission.line_offsets.get(R.submission.main_file, 0),
                 "stack": len(src_data["substitutions"]), "pastEnd": past, "raised": raised is not None,
                 "idx": src_data["section"]}
-        bad = [k for k in proj if proj[k] != exp[k] and not (k == "offset" and not independent)]
+        # the offset only matters to C17 while a section is presented; what it is once the whole file is back is
+        # C12's business (verify() after stop_sections must report CPython's line), checked there
+        bad = [k for k in proj if proj[k] != exp[k] and not (k == "offset" and (not independent or a in ("stop", "resolve") or exp["pastEnd"]))]
         # ---- tools that report line numbers while the section is presented
         diags = []
         presenting = a in ("separate", "next") and not past and raised is None and exp["diags"]
